@@ -58,3 +58,1070 @@ def oracle_c04(R):
             v.append(('result-never-returned',
                       f'transfer {r["i"]}: result() did not return'))
     return v
+
+
+# ------------------------------------------------------------ helpers
+def is_cancel_exc(e):
+    from s3transfer.exceptions import CancelledError
+    return isinstance(e, CancelledError)
+
+
+def calls_of(R, r):
+    keys = {r['key']}
+    if r['type'] == 'copy':
+        keys.add(r['copy_source']['Key'])
+    return [c for c in R.trace.calls if c['key'] in keys]
+
+
+def uploads_of(R, r):
+    return [u for u in R.svc.uploads.values() if u.key == r['key']]
+
+
+def cfg_of(R):
+    return R.case['cfg']
+
+
+def kind_of(r):
+    t = r['spec']
+    return t['type'] + ':' + (t.get('src') or t.get('dst') or '-')
+
+
+def delivered_for(R, r):
+    """Faults delivered to sites of transfer r."""
+    out = []
+    i = r['i']
+    path = r.get('fileobj') if isinstance(r.get('fileobj'), str) else None
+    keys = {r['key']}
+    if r['type'] == 'copy':
+        keys.add(r['copy_source']['Key'])
+    for (step, site, exc, info) in R.trace.delivered:
+        k = info.get('key')
+        hit = False
+        if site.startswith('s3.'):
+            hit = k in keys
+        elif site in ('stream.read', 'stream.script'):
+            hit = isinstance(k, tuple) and k[0] in keys
+        elif site in ('src.read', 'dst.write', 'cb.on_queued',
+                      'cb.on_progress'):
+            hit = k == i
+        elif site.startswith('fs.'):
+            hit = path is not None and isinstance(k, str) and (
+                k == path or k.startswith(path + '.'))
+        if hit:
+            out.append((step, site, exc, info))
+    return out
+
+
+def cancel_sources(R, r):
+    """(type name, message) pairs of cancellation actions that may have
+    reached transfer r, derived from the case (not from the code)."""
+    from s3transfer.exceptions import CancelledError, FatalError
+    out = []
+    i = r['i']
+    for c in R.cancel_log:
+        if c['t'] == i and 'step' in c:
+            out.append((CancelledError, ''))
+    for t in R.case['transfers'][i:i + 1]:
+        for s in t.get('subs') or []:
+            for w, ops in (s.get('reenter') or {}).items():
+                if 'cancel' in ops:
+                    out.append((CancelledError, ''))
+    end = R.end
+    how = end.get('how')
+    if how == 'shutdown_cancel':
+        out.append((CancelledError, end.get('msg', '')))
+    elif how == 'with_exc':
+        m = end.get('msg', '')
+        # str(exc) or repr(exc) of the exception leaving the with-block
+        out.append((FatalError, m if m else f"UserExc({m!r})"))
+    elif how == 'with_kbi':
+        out.append((CancelledError, 'KeyboardInterrupt()'))
+    for (step, what) in R.sched.kbi_delivered:
+        # Ctrl-C in result() cancels that future with ''; Ctrl-C inside
+        # shutdown's wait cancels everything with 'KeyboardInterrupt()'
+        out.append((CancelledError, ''))
+        out.append((CancelledError, 'KeyboardInterrupt()'))
+    return out
+
+
+def content_violation(R, r):
+    """None, or a symptom string, for a transfer that reported success."""
+    exp = r['expect'] if 'expect' in r else None
+    t = r['spec']
+    if r['type'] in ('upload', 'copy'):
+        got = R.svc.objects.get(('bkt', r['key']))
+    elif r['type'] == 'download':
+        fo = r['fileobj']
+        if isinstance(fo, str):
+            got = R.fs.files.get(fo)
+            got = bytes(got) if got is not None else None
+        else:
+            got = bytes(fo.buf)
+    else:
+        return None if ('bkt', r['key']) not in R.svc.objects else 'present'
+    if got is None:
+        return 'missing'
+    if got == exp:
+        return None
+    if len(got) < len(exp):
+        return 'short'
+    if len(got) > len(exp):
+        return 'long'
+    return 'corrupt'
+
+
+def mode_of(R, r):
+    if r['type'] in ('upload', 'copy'):
+        return 'multipart' if uploads_of(R, r) else 'single'
+    if r['type'] == 'download':
+        gets = [c for c in R.trace.calls if c['op'] == 'get_object'
+                and c['key'] == r['key']]
+        return 'ranged' if any('Range' in c['kwargs'] for c in gets) \
+            else 'single'
+    return 'single'
+
+
+def had_stream_fault(R, r):
+    return any(site in ('stream.read', 'stream.script')
+               for (_, site, _, _) in delivered_for(R, r))
+
+
+# ----------------------------------------------------------------- C01
+def oracle_c01(R):
+    v = []
+    for r in R.all_recs():
+        if r['type'] not in ('upload', 'copy') or not r['outcome'] \
+                or not r['outcome'].get('ok'):
+            continue
+        kind = kind_of(r)
+        mode = mode_of(R, r)
+        sym = content_violation(R, r)
+        if sym:
+            v.append((f'c01:{kind}:{mode}:object-{sym}',
+                      f'transfer {r["i"]} reported success but the stored '
+                      f'object is {sym}: expected {len(r["expect"])} bytes, '
+                      f'got {sym}'))
+        ups = uploads_of(R, r)
+        if ups:
+            applied = [u for u in ups if u.completed]
+            if len(ups) != 1 or sum(u.completed for u in ups) != 1:
+                v.append((f'c01:{kind}:multipart:complete-count',
+                          f'transfer {r["i"]}: {len(ups)} uploads created, '
+                          f'completes applied '
+                          f'{[u.completed for u in ups]}'))
+            for u in applied:
+                parts = getattr(u, 'final_parts', [])
+                nums = [p.get('PartNumber') for p in parts]
+                if nums != list(range(1, len(nums) + 1)):
+                    v.append((f'c01:{kind}:multipart:part-numbers',
+                              f'parts listed as {nums}'))
+                alg = (r['spec'].get('extra') or {}).get('ChecksumAlgorithm')
+                for p in parts:
+                    have = u.parts.get(p.get('PartNumber'))
+                    if have is None or have['etag'] != p.get('ETag'):
+                        v.append((f'c01:{kind}:multipart:etag',
+                                  f'part {p} does not carry the ETag S3 '
+                                  f'returned'))
+                        continue
+                    if alg:
+                        member = f'Checksum{alg.upper()}'
+                        if p.get(member) != have['sums'].get(member):
+                            v.append((f'c01:{kind}:multipart:part-checksum',
+                                      f'part {p} lacks/mismatches {member} '
+                                      f'= {have["sums"].get(member)}'))
+                # parts tile the source with no gap/overlap/reorder
+                off = 0
+                for p in parts:
+                    have = u.parts.get(p.get('PartNumber'))
+                    if have is None:
+                        continue
+                    d = have['data']
+                    if r['expect'][off:off + len(d)] != d:
+                        v.append((f'c01:{kind}:multipart:tiling',
+                                  f'part {p.get("PartNumber")} is not the '
+                                  f'source bytes at offset {off}'))
+                        break
+                    off += len(d)
+        else:
+            n = len([c for c in calls_of(R, r) if c['op'] in (
+                'put_object', 'copy_object') and c['applied']])
+            if n != 1:
+                v.append((f'c01:{kind}:single:request-count',
+                          f'{n} put/copy requests applied'))
+    return v
+
+
+# ----------------------------------------------------------------- C02
+def oracle_c02(R):
+    v = []
+    attempts = cfg_of(R)['num_download_attempts']
+    for r in R.all_recs():
+        if r['type'] != 'download':
+            continue
+        kind = kind_of(r)
+        mode = mode_of(R, r)
+        gets = {}
+        for c in R.trace.calls:
+            if c['op'] == 'get_object' and c['key'] == r['key']:
+                k = c['kwargs'].get('Range')
+                gets[k] = gets.get(k, 0) + 1
+        over = {k: n for k, n in gets.items() if n > attempts}
+        if over:
+            v.append((f'c02:{kind}:{mode}:too-many-gets',
+                      f'GetObject per range {over} > num_download_attempts='
+                      f'{attempts}'))
+        if not r['outcome'] or not r['outcome'].get('ok'):
+            continue
+        retry = ':retry' if had_stream_fault(R, r) else ''
+        sym = content_violation(R, r)
+        if sym:
+            v.append((f'c02:{kind}:{mode}{retry}:dest-{sym}',
+                      f'download {r["i"]} ({kind}, {mode}) reported success '
+                      f'but destination is {sym} (object {len(r["expect"])} '
+                      f'bytes)'))
+        fo = r['fileobj']
+        if not isinstance(fo, str) and r['spec']['dst'] == 'nonseek':
+            last = 0
+            for (off, n, step, tid) in fo.writes:
+                if off != last:
+                    v.append((f'c02:{kind}:{mode}{retry}:nonseq-write',
+                              f'write at {off}, expected {last}'))
+                    break
+                last = off + n
+    return v
+
+
+# ----------------------------------------------------------------- C03
+def retry_budget_ok(R, r):
+    """per range: number of retryable stream faults delivered."""
+    from s3transfer.utils import S3_RETRYABLE_DOWNLOAD_ERRORS
+    per = {}
+    for (step, site, exc, info) in delivered_for(R, r):
+        if isinstance(exc, S3_RETRYABLE_DOWNLOAD_ERRORS) and site in (
+                'stream.read', 'stream.script', 's3.get_object'):
+            k = info.get('key')
+            rng = k[1] if isinstance(k, tuple) else None
+            per[rng] = per.get(rng, 0) + 1
+    return per
+
+
+def oracle_c03(R):
+    from s3transfer.exceptions import RetriesExceededError
+    from s3transfer.utils import S3_RETRYABLE_DOWNLOAD_ERRORS
+    from .fakes3 import FakeClientError
+    v = []
+    attempts = cfg_of(R)['num_download_attempts']
+    all_excs = [e for (_, _, e, _) in R.trace.delivered]
+    all_excs += [c['exc'] for c in R.trace.calls if c['exc'] is not None]
+    for r in R.all_recs():
+        o = r['outcome']
+        if o is None:
+            continue
+        kind = kind_of(r)
+        D = delivered_for(R, r)
+        eff = []
+        # s3.get_object keyed faults carry key only; map to range via calls
+        per_range = {}
+        for (step, site, exc, info) in D:
+            if site == 's3.abort_multipart_upload':
+                continue
+            if isinstance(exc, S3_RETRYABLE_DOWNLOAD_ERRORS) and \
+                    r['type'] == 'download' and site in (
+                        'stream.read', 'stream.script', 's3.get_object'):
+                k = info.get('key')
+                if site == 's3.get_object':
+                    # find the call that raised it
+                    rng = None
+                    for c in R.trace.calls:
+                        if c['exc'] is exc:
+                            rng = c['kwargs'].get('Range')
+                else:
+                    rng = k[1] if isinstance(k, tuple) else None
+                per_range.setdefault(rng, []).append(exc)
+                continue
+            eff.append(exc)
+        exhausted = []
+        for rng, lst in per_range.items():
+            if len(lst) >= attempts:
+                exhausted += lst
+        # gets per range never exceed the budget; no GET after a hard fault
+        if r['type'] == 'download':
+            seq = [c for c in R.trace.calls if c['op'] == 'get_object'
+                   and c['key'] == r['key']]
+            cnt = {}
+            for c in seq:
+                k = c['kwargs'].get('Range')
+                cnt[k] = cnt.get(k, 0) + 1
+            for k, n in cnt.items():
+                if n > attempts:
+                    v.append((f'c03:{kind}:too-many-gets',
+                              f'{n} GetObject for range {k} > {attempts}'))
+            hard = {}
+            for (step, site, exc, info) in D:
+                if site in ('stream.read', 'stream.script') and not \
+                        isinstance(exc, S3_RETRYABLE_DOWNLOAD_ERRORS):
+                    hard[info['key'][1]] = step
+            for c in seq:
+                k = c['kwargs'].get('Range')
+                if k in hard and c['begin'] is not None and \
+                        c['begin'] > hard[k]:
+                    v.append((f'c03:{kind}:retried-nonretryable',
+                              f'GetObject for range {k} issued after a '
+                              f'non-retryable stream fault'))
+        if not eff and not exhausted:
+            continue
+        first = D[0][1] if D else '-'
+        if o.get('ok'):
+            sites = sorted({s for (_, s, _, _) in D})
+            v.append((f'c03:{kind}:false-success:{",".join(sites)}',
+                      f'transfer {r["i"]} ({kind}) returned normally '
+                      f'although faults were delivered at {sites} and not '
+                      f'absorbed'))
+            continue
+        e = o.get('exc')
+        okset = eff + exhausted
+        if any(e is x for x in okset):
+            continue
+        if isinstance(e, RetriesExceededError):
+            le = e.last_exception
+            if any(le is x for x in
+                   [y for lst in per_range.values() for y in lst]):
+                continue
+            v.append((f'c03:{kind}:retries-exceeded-foreign',
+                      f'RetriesExceededError.last_exception {le!r} is not '
+                      f'a delivered fault'))
+            continue
+        if is_cancel_exc(e) and cancel_sources(R, r):
+            continue
+        if any(e is x for x in all_excs):
+            continue    # another failure that really occurred
+        v.append((f'c03:{kind}:foreign-exception:{type(e).__name__}',
+                  f'transfer {r["i"]} raised {e!r}, which is none of the '
+                  f'failures that occurred ({[type(x).__name__ for x in okset]})'))
+    return v
+
+
+# ----------------------------------------------------------------- C05
+def oracle_c05(R):
+    v = []
+    for up in R.svc.uploads.values():
+        if not up.delivered:
+            continue
+        r = next((x for x in R.all_recs() if x['key'] == up.key), None)
+        if r is None or r['outcome'] is None:
+            continue
+        kind = kind_of(r)
+        ok = r['outcome'].get('ok')
+        ann = R.announced.get(r['i'])
+        log = up.log
+        aborts = [c for c in log if c['op'] == 'abort_multipart_upload']
+        others = [c for c in log if c['op'] != 'abort_multipart_upload']
+        completes = [c for c in log if c['op'] ==
+                     'complete_multipart_upload' and c['applied']]
+        if ok:
+            if len(completes) != 1:
+                v.append((f'c05:{kind}:success-completes={len(completes)}',
+                          f'upload {up.id}: future succeeded, complete '
+                          f'applied {len(completes)} times'))
+            if aborts:
+                v.append((f'c05:{kind}:success-but-aborted',
+                          f'upload {up.id}: future succeeded but abort was '
+                          f'issued'))
+        else:
+            if not aborts:
+                v.append((f'c05:{kind}:left-open',
+                          f'upload {up.id}: future failed/cancelled with '
+                          f'{type(r["outcome"].get("exc")).__name__} but no '
+                          f'abort was issued (state {up.state})'))
+            if len(completes) > 1:
+                v.append((f'c05:{kind}:completed-twice',
+                          f'upload {up.id}: complete applied '
+                          f'{len(completes)} times'))
+        if aborts:
+            a0 = min(c['begin'] for c in aborts if c['begin'] is not None)
+            for c in others:
+                if c['op'] == 'create_multipart_upload':
+                    continue
+                if c['begin'] is not None and c['begin'] > a0:
+                    v.append((f'c05:{kind}:{c["op"]}-after-abort',
+                              f'upload {up.id}: {c["op"]} began at step '
+                              f'{c["begin"]} after abort began at {a0}'))
+                    break
+            for c in others:
+                if c['end'] is None or c['end'] > a0:
+                    v.append((f'c05:{kind}:abort-before-{c["op"]}-returned',
+                              f'upload {up.id}: abort began at step {a0} '
+                              f'while {c["op"]} (begin {c["begin"]}) had not '
+                              f'returned (end {c["end"]})'))
+                    break
+            if ann is not None:
+                late = [c for c in aborts if c['end'] is None
+                        or c['end'] > ann]
+                if late and not any(c['end'] is not None and c['end'] <= ann
+                                    for c in aborts):
+                    v.append((f'c05:{kind}:abort-after-done',
+                              f'upload {up.id}: result() unblocked at step '
+                              f'{ann} before the abort returned'))
+        if ann is not None and ok:
+            c = completes[0] if completes else None
+            if c is not None and (c['end'] is None or c['end'] > ann):
+                v.append((f'c05:{kind}:done-before-complete-returned',
+                          f'upload {up.id}: done at {ann}, complete ended '
+                          f'{c["end"]}'))
+    return v
+
+
+# ----------------------------------------------------------------- C06
+def install_c06_watch(R):
+    """Called by the run before the program starts: checks the destination
+    after every file-system mutation (= at every crash point)."""
+    state = {'viol': []}
+
+    def watch(fs, what, path):
+        for r in R.transfers:
+            if r['type'] != 'download' or r['spec']['dst'] != 'path':
+                continue
+            p = r['fileobj']
+            cur = fs.files.get(p)
+            prev = r.get('previous')
+            if cur is None:
+                okv = True     # absent (also fine when previous existed? no)
+                if prev is not None:
+                    okv = False
+            else:
+                b = bytes(cur)
+                okv = (prev is not None and b == prev) or b == r['expect']
+            if not okv and not r.get('_c06_flagged'):
+                r['_c06_flagged'] = True
+                state['viol'].append(
+                    (r['i'], R.sched.step, what, path,
+                     None if cur is None else len(cur)))
+    R.fs.watch.append(watch)
+    R.c06_state = state
+
+
+def oracle_c06(R):
+    v = []
+    for (i, step, what, path, n) in R.c06_state['viol']:
+        r = R.transfers[i]
+        v.append((f'c06:{mode_of(R, r)}:partial-visible:{what}',
+                  f'download {i}: after {what}({path}) at step {step} the '
+                  f'destination {r["fileobj"]} held {n} bytes - neither the '
+                  f'previous content nor the complete object '
+                  f'({len(r["expect"])} bytes)'))
+    static = set()
+    for r in R.all_recs():
+        if isinstance(r.get('fileobj'), str):
+            static.add(r['fileobj'])
+    for r in R.transfers:
+        if r['type'] != 'download' or r['spec']['dst'] != 'path' \
+                or r['outcome'] is None:
+            continue
+        mode = mode_of(R, r)
+        p = r['fileobj']
+        i = r['i']
+        lst = R.listing_at_announce.get(i)
+        if lst is not None:
+            temps = [x for x in lst if x.startswith(p + '.')]
+            if temps:
+                v.append((f'c06:{mode}:temp-left-at-done',
+                          f'download {i}: temporary files {temps} exist when '
+                          f'the future is done (step {R.announced.get(i)})'))
+        temps = [x for x in R.fs.listing() if x.startswith(p + '.')]
+        if temps:
+            v.append((f'c06:{mode}:temp-left',
+                      f'download {i}: temporary files {temps} remain at '
+                      f'the end'))
+        cur = R.fs.files.get(p)
+        cur = bytes(cur) if cur is not None else None
+        prev = r.get('previous')
+        o = r['outcome']
+        if o.get('ok'):
+            continue    # content judged by C02
+        renamed = any(k == 'fs.rename' and info.get('dst') == p
+                      for (_, _, k, info) in R.trace.events)
+        if is_cancel_exc(o.get('exc')):
+            if cur != prev and not (renamed and cur == r['expect']):
+                v.append((f'c06:{mode}:cancel-clobbered',
+                          f'download {i} cancelled: destination is neither '
+                          f'previous content nor (after a rename) the '
+                          f'complete object'))
+        elif cur != prev:
+            v.append((f'c06:{mode}:failure-clobbered',
+                      f'download {i} failed with '
+                      f'{type(o.get("exc")).__name__}: previous '
+                      f'destination content was not preserved'))
+    return v
+
+
+# ----------------------------------------------------------------- C07
+def oracle_c07(R):
+    from s3transfer.exceptions import CancelledError, FatalError
+    v = []
+    end = R.end
+    how = end.get('how')
+    interrupted_end = any(st >= end.get('cancel_step', 1 << 60)
+                          for (st, w) in R.sched.kbi_delivered)
+    # (f) the entry point returns / re-raises only the interrupt
+    if how in ('shutdown', 'shutdown_cancel'):
+        ex = end.get('raised')
+        if ex is not None and ex != 'KeyboardInterrupt':
+            v.append((f'c07:{how}:raised:{type(ex).__name__}',
+                      f'manager.shutdown raised {ex!r}'))
+        if ex == 'KeyboardInterrupt' and not R.sched.kbi_delivered:
+            v.append((f'c07:{how}:spurious-interrupt', 'KeyboardInterrupt '
+                      'out of shutdown without a delivered Ctrl-C'))
+    if not interrupted_end and (end.get('returned')
+                                or how in ('with', 'with_exc', 'with_kbi')):
+        dar = end.get('done_at_return') or []
+        if any(d is False for d in dar):
+            v.append((f'c07:{how}:returned-before-done',
+                      f'entry point returned with futures done={dar}'))
+    for r in R.transfers:
+        o = r['outcome']
+        if o is None or r['future'] is None:
+            continue
+        i = r['i']
+        kind = kind_of(r)
+        srcs = cancel_sources(R, r)
+        e = o.get('exc')
+        D = delivered_for(R, r)
+        # cancellation error must carry the type and message of one of
+        # the cancel actions that were issued
+        if not o.get('ok') and is_cancel_exc(e):
+            if not any(type(e) is t and str(e) == m for (t, m) in srcs):
+                v.append((f'c07:{kind}:{how}:wrong-cancel-error',
+                          f'transfer {i} ended with {type(e).__name__}'
+                          f'({str(e)!r}); cancel actions issued: '
+                          f'{[(t.__name__, m) for t, m in srcs]}'))
+        # a transfer that was not done when a (non-racing) cancel reached it
+        dac = (end.get('done_at_cancel') or [None] * (i + 1))
+        end_cancels = how in ('shutdown_cancel', 'with_exc', 'with_kbi')
+        if end_cancels and i < len(dac) and dac[i] is False and not D:
+            # allowed: cancellation error, or success with complete effect
+            if o.get('ok'):
+                sym = content_violation(R, r)
+                if sym:
+                    v.append((f'c07:{kind}:{how}:success-incomplete-{sym}',
+                              f'transfer {i} raced {how}: reported success '
+                              f'but the effect is {sym}'))
+            elif not is_cancel_exc(e):
+                v.append((f'c07:{kind}:{how}:not-cancelled:'
+                          f'{type(e).__name__}',
+                          f'transfer {i} was not done at {how} and no fault '
+                          f'was injected, but ended with {e!r}'))
+        for c in R.cancel_log:
+            if c['t'] != i or 'step' not in c:
+                continue
+            if not c['done_before'] and not D:
+                if o.get('ok'):
+                    sym = content_violation(R, r)
+                    if sym:
+                        v.append((f'c07:{kind}:future.cancel:success-'
+                                  f'incomplete-{sym}',
+                                  f'transfer {i} raced cancel(): reported '
+                                  f'success but the effect is {sym}'))
+                elif not is_cancel_exc(e):
+                    v.append((f'c07:{kind}:future.cancel:not-cancelled:'
+                              f'{type(e).__name__}',
+                              f'transfer {i} not done at cancel(), no fault,'
+                              f' ended with {e!r}'))
+            if c.get('before') is not None:
+                b = c['before']
+                same = (b[0] == 'ok' and o.get('ok')) or (
+                    b[0] == 'exc' and o.get('exc') is b[1])
+                if not same:
+                    v.append((f'c07:{kind}:finished-result-changed',
+                              f'transfer {i} had finished with {b} before '
+                              f'cancel(); afterwards {o}'))
+        # (c) not started when cancelled => no S3 request at all
+        if not o.get('ok') and is_cancel_exc(e):
+            fd = R.first_done.get(i)
+            ts = R.task_start_step(i)
+            if fd is not None and (ts is None or ts > fd):
+                n = [c['op'] for c in calls_of(R, r)]
+                if n:
+                    v.append((f'c07:{kind}:requests-after-cancel-before-start',
+                              f'transfer {i} was cancelled (step {fd}) before '
+                              f'its submission task started ({ts}) yet issued '
+                              f'{n}'))
+    # (e) cleanups
+    for sig, msg in oracle_c05(R) + oracle_c06(R):
+        v.append(('c07:cleanup:' + sig, msg))
+    return v
+
+
+# ----------------------------------------------------------------- C08
+def oracle_c08(R):
+    v = []
+    evs = R.trace.events
+    for r in R.all_recs():
+        if r['future'] is None or r['outcome'] is None:
+            continue
+        i = r['i']
+        kind = kind_of(r)
+        nsubs = len(r['subs'])
+        if not nsubs:
+            continue
+        calls = calls_of(R, r)
+        first_call = min([c['begin'] for c in calls
+                          if c['begin'] is not None] or [None],
+                         default=None) if calls else None
+        q = {}
+        d = {}
+        prog_steps = []
+        for (step, tid, k, info) in evs:
+            if info.get('t') != i:
+                continue
+            if k == 'cb.queued':
+                q.setdefault(info['s'], []).append(step)
+            elif k == 'cb.done':
+                d.setdefault(info['s'], []).append((step, info))
+            elif k == 'cb.progress':
+                prog_steps.append(step)
+        cancelled = is_cancel_exc(r['outcome'].get('exc'))
+        qfault = any(site == 'cb.on_queued'
+                     for (_, site, _, _) in delivered_for(R, r))
+        for s_ in range(nsubs):
+            nq = len(q.get(s_, []))
+            if nq > 1:
+                v.append((f'c08:{kind}:on_queued-twice',
+                          f'transfer {i} sub {s_}: on_queued ran {nq}x'))
+            if nq == 0 and not qfault:
+                if not (cancelled and not calls):
+                    v.append((f'c08:{kind}:on_queued-missing',
+                              f'transfer {i} sub {s_}: on_queued never ran '
+                              f'(outcome {r["outcome"]}, calls '
+                              f'{[c["op"] for c in calls]})'))
+            if nq and first_call is not None and q[s_][0] > first_call:
+                v.append((f'c08:{kind}:on_queued-after-request',
+                          f'transfer {i} sub {s_}: on_queued at step '
+                          f'{q[s_][0]} after first request at {first_call}'))
+            nd = len(d.get(s_, []))
+            if nd != 1:
+                v.append((f'c08:{kind}:on_done-count={min(nd, 2)}',
+                          f'transfer {i} sub {s_}: on_done ran {nd} times '
+                          f'(outcome {"ok" if r["outcome"].get("ok") else type(r["outcome"].get("exc")).__name__})'))
+                continue
+            step, info = d[s_][0]
+            if not info['done']:
+                v.append((f'c08:{kind}:on_done-before-done',
+                          f'transfer {i}: future.done() False in on_done'))
+            if info['blocked']:
+                v.append((f'c08:{kind}:result-blocks-in-on_done',
+                          f'transfer {i}: result() still blocks in on_done'))
+        if d:
+            first_done_cb = min(st for lst in d.values() for (st, _) in lst)
+            late = [c for c in calls if c['end'] is None
+                    or c['end'] > first_done_cb]
+            if late:
+                v.append((f'c08:{kind}:on_done-before-{late[0]["op"]}-returned',
+                          f'transfer {i}: on_done began at step '
+                          f'{first_done_cb} while {late[0]["op"]} '
+                          f'(begin {late[0]["begin"]}, end {late[0]["end"]}) '
+                          f'had not returned'))
+            if any(ps >= first_done_cb for ps in prog_steps):
+                v.append((f'c08:{kind}:progress-after-on_done',
+                          f'transfer {i}: on_progress delivered after '
+                          f'on_done began ({first_done_cb})'))
+            # file/stream operations of the transfer after on_done began
+            path = r.get('fileobj') if isinstance(r.get('fileobj'), str) \
+                else None
+            for (step, tid, k, info) in evs:
+                if step <= first_done_cb:
+                    continue
+                hit = False
+                if k in ('src.read', 'src.seek', 'dst.write') and \
+                        info.get('t') == i:
+                    hit = True
+                elif k.startswith('fs.') and path is not None:
+                    pp = info.get('path') or info.get('dst') or ''
+                    hit = pp == path or pp.startswith(path + '.')
+                if hit:
+                    v.append((f'c08:{kind}:{k}-after-on_done',
+                              f'transfer {i}: {k} at step {step} after '
+                              f'on_done began at {first_done_cb}'))
+                    break
+            # the outcome seen in on_done is the final one
+            outs = {repr(info['outcome']) for lst in d.values()
+                    for (_, info) in lst}
+        if r['type'] in ('download', 'copy'):
+            provided = any(sp.get('size') for sp in
+                           r['spec'].get('subs') or [])
+            if provided and any(c['op'] == 'head_object' for c in calls):
+                v.append((f'c08:{kind}:head-despite-size',
+                          f'transfer {i}: size was provided in on_queued '
+                          f'but head_object was called'))
+    return v
+
+
+# ----------------------------------------------------------------- C09
+def oracle_c09(R):
+    v = []
+    for r in R.all_recs():
+        if r['type'] == 'delete' or not r['outcome'] or not r['subs']:
+            continue
+        i = r['i']
+        kind = kind_of(r)
+        size = len(r['expect'])
+        per = {}
+        for (step, tid, k, info) in R.trace.events:
+            if k == 'cb.progress' and info.get('t') == i:
+                per.setdefault(info['s'], []).append(info['n'])
+        pfault = any(site == 'cb.on_progress'
+                     for (_, site, _, _) in delivered_for(R, r))
+        for s_ in range(len(r['subs'])):
+            seq = per.get(s_, [])
+            run = 0
+            for n in seq:
+                run += n
+                if run < 0 or run > size:
+                    v.append((f'c09:{kind}:{mode_of(R, r)}:running-sum-'
+                              f'{"negative" if run < 0 else "over"}',
+                              f'transfer {i} sub {s_}: running progress sum '
+                              f'{run} outside [0,{size}] (sequence {seq})'))
+                    break
+            if r['outcome'].get('ok') and not pfault and run != size \
+                    and 0 <= run <= size:
+                v.append((f'c09:{kind}:{mode_of(R, r)}:sum-mismatch',
+                          f'transfer {i} sub {s_}: progress sums to {run}, '
+                          f'size {size} (sequence {seq})'))
+    return v
+
+
+# ----------------------------------------------------------------- C10
+DATA_OPS = ('put_object', 'get_object', 'copy_object', 'delete_object',
+            'create_multipart_upload', 'upload_part', 'upload_part_copy',
+            'complete_multipart_upload')
+
+
+def max_overlap(intervals):
+    pts = []
+    for a, b in intervals:
+        pts.append((a, 1))
+        pts.append((b, -1))
+    pts.sort(key=lambda x: (x[0], x[1]))
+    cur = best = 0
+    for _, d in pts:
+        cur += d
+        best = max(best, cur)
+    return best
+
+
+def oracle_c10(R):
+    v = []
+    cfg = cfg_of(R)
+    serial = R.case.get('exec') == 'serial'
+    big = R.sched.step + 1
+    data = [(c['begin'], c['end'] if c['end'] is not None else big)
+            for c in R.trace.calls
+            if c['op'] in DATA_OPS and c['begin'] is not None]
+    heads = [(c['begin'], c['end'] if c['end'] is not None else big)
+             for c in R.trace.calls
+             if c['op'] == 'head_object' and c['begin'] is not None]
+    R.c10_peak = (max_overlap(data), max_overlap(heads))
+    if R.c10_peak[0] > cfg['max_request_concurrency']:
+        v.append(('c10:request-concurrency-exceeded',
+                  f'{R.c10_peak[0]} transfer requests in flight > '
+                  f'max_request_concurrency={cfg["max_request_concurrency"]}'))
+    if R.c10_peak[1] > cfg['max_submission_concurrency']:
+        v.append(('c10:submission-concurrency-exceeded',
+                  f'{R.c10_peak[1]} head_object in flight > '
+                  f'max_submission_concurrency='
+                  f'{cfg["max_submission_concurrency"]}'))
+    if not serial and len(R.executors) >= 3:
+        ex = R.executors
+        want = [cfg['max_request_concurrency'],
+                cfg['max_submission_concurrency'], 1]
+        for k, name in enumerate(('request', 'submission', 'io')):
+            if ex[k].max_workers != want[k]:
+                v.append((f'c10:{name}-executor-workers',
+                          f'{name} executor built with max_workers='
+                          f'{ex[k].max_workers}, configured {want[k]}'))
+        lim = [cfg['max_request_queue_size']
+               + cfg['max_in_memory_upload_chunks']
+               + cfg['max_in_memory_download_chunks'],
+               cfg['max_submission_queue_size'], cfg['max_io_queue_size']]
+        for k, name in enumerate(('request', 'submission', 'io')):
+            if ex[k].max_inflight > lim[k]:
+                v.append((f'c10:{name}-queue-overrun',
+                          f'{name} stage had {ex[k].max_inflight} queued-or-'
+                          f'running tasks > limit {lim[k]}'))
+        for c in R.trace.calls:
+            if c['op'] in DATA_OPS and c['role'] != ('executor', 0):
+                v.append((f'c10:{c["op"]}-outside-request-stage',
+                          f'{c["op"]} issued from thread role {c["role"]}'))
+                break
+        for c in R.trace.calls:
+            if c['op'] == 'head_object' and c['role'] != ('executor', 1):
+                v.append(('c10:head-outside-submission-stage',
+                          f'head_object issued from role {c["role"]}'))
+                break
+    # writes to one destination: one thread at a time
+    for r in R.all_recs():
+        if r['type'] != 'download':
+            continue
+        fo = r['fileobj']
+        if not isinstance(fo, str) and fo.overlap:
+            v.append(('c10:overlapping-writes',
+                      f'download {r["i"]}: two writes to the destination '
+                      f'stream were in progress at once'))
+    from s3transfer.utils import NoResourcesAvailable
+    for r in R.all_recs():
+        for e in (r.get('submit_exc'), (r['outcome'] or {}).get('exc')):
+            if isinstance(e, NoResourcesAvailable):
+                v.append(('c10:submitter-failed-instead-of-blocking',
+                          f'transfer {r["i"]}: {e!r}'))
+    return v
+
+
+# ----------------------------------------------------------------- C11
+def oracle_c11(R):
+    v = []
+    cfg = cfg_of(R)
+    U = cfg['max_in_memory_upload_chunks']
+    S = cfg['max_submission_concurrency']
+    Dn = cfg['max_in_memory_download_chunks']
+    thr = cfg['multipart_threshold']
+    evs = R.trace.events
+    R.c11_reached = False
+    # ---- uploads from streams (multipart)
+    ups = [r for r in R.all_recs() if r['type'] == 'upload'
+           and r['spec']['src'] in ('seek', 'nonseek')
+           and mode_of(R, r) == 'multipart']
+    if ups:
+        idx = {r['i'] for r in ups}
+        keys = {r['key']: r for r in ups}
+        eff = 1
+        for r in ups:
+            for u in uploads_of(R, r):
+                for c in u.log:
+                    if c['op'] == 'upload_part' and 'body_len' in c:
+                        eff = max(eff, c['body_len'])
+        eff = max(eff, cfg['multipart_chunksize'])
+        bound = (U + S) * max(eff, thr)
+        timeline = []
+        for (step, tid, k, info) in evs:
+            if k == 'src.read' and info.get('t') in idx and info['n'] > 0:
+                timeline.append((step, 0, info['n'], info['t']))
+                if info['n'] > max(eff, thr):
+                    v.append(('c11:upload-buffer-too-large',
+                              f'read of {info["n"]} bytes from the user '
+                              f'stream > max(chunk {eff}, threshold {thr})'))
+        ended = set()
+        for c in R.trace.calls:
+            if c['op'] == 'upload_part' and c['key'] in keys and \
+                    c['end'] is not None:
+                n = (c.get('attempts') or [0])[-1] if 'body_len' not in c \
+                    else c['body_len']
+                timeline.append((c['end'], 1, -c.get('body_len', 0),
+                                 keys[c['key']]['i']))
+        # only judge while every stream upload is still alive (a failed
+        # transfer drops its buffers without a request finishing)
+        stop = min([R.first_done.get(r['i'], 1 << 60) for r in ups
+                    if not (r['outcome'] or {}).get('ok')] or [1 << 60])
+        timeline.sort()
+        cur = 0
+        peak = 0
+        for (step, _, n, t) in timeline:
+            if step >= stop:
+                break
+            cur += n
+            peak = max(peak, cur)
+        if peak >= bound - max(eff, thr):
+            R.c11_reached = True
+        if peak > bound:
+            v.append(('c11:upload-buffering-exceeded',
+                      f'{peak} bytes read from user streams were awaiting a '
+                      f'finished part request; bound (U={U}+S={S})*'
+                      f'max(chunk={eff},thr={thr})={bound}'))
+    # ---- downloads to non-seekable destinations
+    downs = [r for r in R.all_recs() if r['type'] == 'download'
+             and r['spec']['dst'] in ('nonseek', 'special')
+             and mode_of(R, r) == 'ranged']
+    if downs:
+        chunk = cfg['multipart_chunksize']
+        # events: request begin of part k; part k fully delivered
+        tl = []
+        for r in downs:
+            for c in R.trace.calls:
+                if c['op'] == 'get_object' and c['key'] == r['key'] and \
+                        c['begin'] is not None and 'range_start' in c:
+                    tl.append((c['begin'], 'req', r['i'],
+                               c['range_start'] // chunk))
+        for (step, tid, k, info) in evs:
+            if k == 's3.stream':
+                c = R.trace.calls[info['call'] - 1]
+                if c['op'] == 'get_object' and info['pos'] == \
+                        c.get('range_len') and c['key'] in {
+                            r['key'] for r in downs}:
+                    i = next(r['i'] for r in downs if r['key'] == c['key'])
+                    tl.append((step, 'fin', i, c['range_start'] // chunk))
+        for r in downs:
+            # a transfer that failed / was cancelled stops counting from the
+            # step it became done (its tasks release their tokens as they
+            # notice; dropping its contribution only weakens the check)
+            if not (r['outcome'] or {}).get('ok'):
+                fd = R.first_done.get(r['i'])
+                if fd is not None:
+                    tl.append((fd, 'dead', r['i'], 0))
+        order = {'fin': 0, 'dead': 0, 'req': 1}
+        tl.sort(key=lambda x: (x[0], order[x[1]]))
+        req = {}
+        fin = {}
+        dead = set()
+        worst = 0
+        for (step, what, i, k) in tl:
+            if what == 'req':
+                req.setdefault(i, set()).add(k)
+            elif what == 'dead':
+                dead.add(i)
+            else:
+                fin.setdefault(i, set()).add(k)
+            total = 0
+            for j, q in req.items():
+                if j in dead:
+                    continue
+                f = fin.get(j, set())
+                low = 0
+                while low in f:
+                    low += 1
+                hi = max(q)
+                w = hi - low + 1
+                if w > 0:
+                    total += w
+                    if w > Dn:
+                        v.append(('c11:download-window-exceeded',
+                                  f'download {j}: part {hi} requested while '
+                                  f'lowest unfinished part is {low}; window '
+                                  f'{w} > max_in_memory_download_chunks={Dn}'))
+            worst = max(worst, total)
+            if total > Dn:
+                v.append(('c11:download-window-sum-exceeded',
+                          f'sum of windows over non-seekable downloads '
+                          f'{total} > {Dn}'))
+            if v and v[-1][0].startswith('c11:download-window'):
+                break
+        if worst >= Dn:
+            R.c11_reached = True
+    # ---- pending destination writes
+    ioc = cfg['io_chunksize']
+    for (step, tid, k, info) in evs:
+        if k in ('dst.write', 'fs.write') and info.get('n', 0) > ioc:
+            if k == 'fs.write' and not any(
+                    isinstance(r.get('fileobj'), str)
+                    and (info['path'] == r['fileobj'] or
+                         info['path'].startswith(r['fileobj'] + '.'))
+                    and r['type'] == 'download' for r in R.all_recs()):
+                continue
+            v.append(('c11:write-larger-than-io-chunksize',
+                      f'{k} of {info["n"]} bytes > io_chunksize {ioc}'))
+            break
+    if R.case.get('exec') != 'serial' and len(R.executors) >= 3:
+        if R.executors[2].max_inflight > cfg['max_io_queue_size']:
+            v.append(('c11:io-queue-overrun',
+                      f'{R.executors[2].max_inflight} pending destination '
+                      f'writes > max_io_queue_size={cfg["max_io_queue_size"]}'))
+        if R.executors[2].max_inflight >= cfg['max_io_queue_size']:
+            R.c11_reached = True
+    return v
+
+
+# ----------------------------------------------------------------- C12c/C18
+def semaphore_state(R):
+    """[(name, current, configured)] for every semaphore of the manager, or
+    None when the internals cannot be read (then nothing is claimed)."""
+    mgr = getattr(R, 'mgr', None)
+    if mgr is None:
+        return None
+    cfg = cfg_of(R)
+    out = []
+    try:
+        from s3transfer.futures import (IN_MEMORY_UPLOAD_TAG,
+                                        IN_MEMORY_DOWNLOAD_TAG)
+
+        def val(sem):
+            if hasattr(sem, 'current_count'):
+                return sem.current_count()
+            inner = sem._semaphore
+            return inner._value
+        out.append(('request-queue', val(mgr._request_executor._semaphore),
+                    cfg['max_request_queue_size']))
+        out.append(('submission-queue',
+                    val(mgr._submission_executor._semaphore),
+                    cfg['max_submission_queue_size']))
+        out.append(('io-queue', val(mgr._io_executor._semaphore),
+                    cfg['max_io_queue_size']))
+        tags = mgr._request_executor._tag_semaphores
+        out.append(('in-memory-upload', val(tags[IN_MEMORY_UPLOAD_TAG]),
+                    cfg['max_in_memory_upload_chunks']))
+        out.append(('in-memory-download', val(tags[IN_MEMORY_DOWNLOAD_TAG]),
+                    cfg['max_in_memory_download_chunks']))
+    except Exception:
+        return None
+    return out
+
+
+def oracle_quiescence(R):
+    v = []
+    if R.sched.deadlock or R.sched.budget_exceeded:
+        return v
+    if any(r['future'] is not None and r['outcome'] is None
+           for r in R.all_recs()):
+        return v
+    st = R.sem_state
+    if st is None:
+        return v
+    for name, cur, conf in st:
+        if cur != conf:
+            v.append((f'quiescence:{name}-permits',
+                      f'{name} semaphore at {cur} after all transfers '
+                      f'finished; configured {conf}'))
+    return v
+
+
+def oracle_c18(R):
+    v = []
+    end = R.end
+    interrupted = bool(R.sched.kbi_delivered)
+    # isolation: transfers nobody touched must succeed with exact bytes
+    for r in R.all_recs():
+        if r['future'] is None or r['outcome'] is None:
+            continue
+        i = r['i']
+        touched = bool(delivered_for(R, r)) or bool(cancel_sources(R, r))
+        if touched:
+            continue
+        kind = kind_of(r)
+        if not r['outcome'].get('ok'):
+            v.append((f'c18:{kind}:neighbour-changed-outcome',
+                      f'transfer {i} had no fault and no cancel addressed to '
+                      f'it but ended with {r["outcome"].get("exc")!r}'))
+        else:
+            sym = content_violation(R, r)
+            if sym:
+                v.append((f'c18:{kind}:neighbour-changed-bytes-{sym}',
+                          f'transfer {i} (untouched) succeeded with {sym} '
+                          f'content'))
+    # barrier
+    ret = end.get('return_step')
+    if ret is not None and not interrupted and (
+            end.get('returned') or str(end.get('how', '')).startswith('with')):
+        dar = end.get('done_at_return') or []
+        if any(d is False for d in dar):
+            v.append(('c18:returned-before-done',
+                      f'shutdown returned with futures done={dar}'))
+        fin = end.get('final_step', ret)
+        for (step, tid, k, info) in R.trace.events:
+            if step > ret and (k.startswith(('s3.', 'fs.', 'dst.', 'src.',
+                                             'cb.'))):
+                v.append((f'c18:{k}-after-shutdown',
+                          f'{k} {info} at step {step} after shutdown '
+                          f'returned at {ret}'))
+                break
+        if end.get('executors_left_running'):
+            v.append(('c18:threads-alive-after-shutdown',
+                      f'{end["executors_left_running"]} executors running '
+                      f'after shutdown returned'))
+    v += oracle_quiescence(R)
+    return v
